@@ -172,3 +172,37 @@ def write_layout(path, model, rng, version="0.62.7", identifier=True, internal_b
                                                      dtype=f"S{width}"))
             desc["options"]["n_basins"] = len(extra_basins)
     return desc
+
+
+def add_raw_logs(path, rng, prefix="acq"):
+    """Append 1-2 logs to an existing .rtdc file the way acquisition software does (raw h5py,
+    fixed-length strings with width to spare, or variable-length strings): ASCII and
+    non-ASCII lines, some longer than 100 bytes.  -> {name: lines}"""
+    import h5py
+    words = ["Bediener: Jürgen Müller", "température 23.5 °C", "通道 20 µm", "flow 0.04 µL/s",
+             "plain ascii words", "Ångström ± 5 %", "x" * 60]
+    out = {}
+    with h5py.File(path, "a") as h5:
+        lg = h5.require_group("logs")
+        for i in range(int(rng.integers(1, 3))):
+            lines = []
+            for _ in range(int(rng.integers(1, 6))):
+                k = int(rng.choice([1, 1, 2, 5, 8]))
+                lines.append("; ".join(str(rng.choice(words)) for _ in range(k)))
+            if rng.random() < 0.5:
+                # the longest line (in bytes) is a non-ASCII one that is also the longest in
+                # characters / is not the longest in characters
+                lines.append(("ü" * int(rng.integers(60, 140))) if rng.random() < 0.5
+                             else ("é" * 70 + "z" * int(rng.integers(0, 60))))
+                lines.append("a" * int(rng.integers(90, 130)))
+            name = f"{prefix}-{i}"
+            if name in lg:
+                continue
+            enc = [ln.encode("utf-8") for ln in lines]
+            if rng.random() < 0.5:
+                lg.create_dataset(name, data=lines, dtype=h5py.string_dtype("utf-8"))
+            else:
+                width = max(len(e) for e in enc) + int(rng.integers(0, 40))
+                lg.create_dataset(name, data=np.array(enc, dtype=f"S{width}"))
+            out[name] = lines
+    return out
